@@ -33,6 +33,13 @@ func init() {
 }
 
 func runC09(c *an.Ctx) {
+	// ---- C09-R10: builder wiring of the components this property rests on
+	c.Floor("C09-R10", 4)
+	builderWiring(c, "C09-R10", map[string][]string{
+		"initDNS|dnssvc.HandlersConfig":                 {"RateLimit"},
+		"initRateLimiter|consul.AllowlistUpdaterConfig": nil,
+		"initRateLimiter|backendpb.RateLimiterConfig":   nil,
+	})
 	c09AllowlistWiring(c)
 	c09Allowlist(c)
 	c09Window(c)
